@@ -34,7 +34,7 @@ RULE = (
     "its box that reaches the viewBox, random polygon, pentagram, ring with same/opposite inner direction, "
     "quadratic lens whose control point sticks out of the curve's box, 4-quad blob, cubic arch, arc shapes, random "
     "paths over all commands, generic shapes), fill-rule evenodd/nonzero, fill-opacity, opacity, occasional "
-    "transforms, groups (depth <= 3) with opacity so that the clip empties them or leaves one child. 'window' (1 of "
+    "transforms, groups (nested up to depth 2) with opacity so that the clip empties them or leaves one child. 'window' (1 of "
     "4): the shared structural grammar (groups, transform lists, use, opacity) with the viewBox a random sub-window "
     "of the area the shapes cover. Each source is converted (topicosvg; raising = rejection) and the picosvg is "
     "clipped through the library (sub clip) or through `python -m picosvg.picosvg --clip_to_viewbox` (sub cli, which "
